@@ -8,16 +8,19 @@
 package main
 
 import (
+	"context"
 	"fmt"
 	"strings"
+
+	"storj.io/drpc"
 
 	"verifharness/census"
 	"verifharness/director"
 	"verifharness/payload"
 	"verifharness/prog"
 	"verifharness/rig"
-	"verifharness/simnet"
 	"verifharness/runner"
+	"verifharness/simnet"
 )
 
 func actsString(a []prog.Act) string {
@@ -156,6 +159,70 @@ func finishRace(r *payload.SplitMix, cfg prog.Config) (all []*prog.Script, group
 		all = append(all, prog.GenClean(r, uint64(3+i), cfg))
 	}
 	return all, [][]*prog.Script{all}, payload.Pick(r, finishPoints)
+}
+
+// reusedResponse: unary calls on one connection into one reused response variable; some responses are
+// zero-length messages. Each call must return the response to its own request: an empty response must
+// leave the variable empty, not holding what an earlier call put there.
+func reusedResponse(id string, seed uint64) runner.Result {
+	r := &payload.SplitMix{S: seed}
+	cfg := prog.GenConfig(r, false)
+	if cfg.Net.Cap == 0 {
+		cfg.Net.Cap = -1
+	}
+	handler := rig.HandlerFunc(func(stream drpc.Stream, rpc string) error {
+		var m []byte
+		if err := stream.MsgRecv(&m, payload.Enc{}); err != nil {
+			return err
+		}
+		h, err := payload.Parse(m)
+		if err != nil {
+			return err
+		}
+		out := []byte{}
+		if h.Seq%2 == 0 {
+			out = payload.Make(h.Tag, 1, 0, h.Seq, int(h.Seq)*3)
+		}
+		return stream.MsgSend(&out, payload.Enc{})
+	})
+	rg := rig.New(rig.Config{Net: cfg.Net, Client: cfg.Client, Server: cfg.Server}, handler)
+	defer rg.Teardown()
+	var out []byte
+	n := 3 + r.Intn(6)
+	var seqs []uint32
+	for i := 0; i < n; i++ {
+		seqs = append(seqs, uint32(r.Intn(8)))
+	}
+	var fails []string
+	for i, q := range seqs {
+		tag := uint64(i + 1)
+		in := payload.Make(tag, 0, 0, q, 5)
+		op := rig.Go("invoke", func() (interface{}, error) {
+			return nil, rg.Conn.Invoke(context.Background(), "/get", payload.Enc{}, &in, &out)
+		})
+		if !op.Wait() {
+			return runner.Inconcl(id, "a unary call blocked")
+		}
+		if op.Err != nil {
+			fails = append(fails, fmt.Sprintf("call %d failed: %s", i+1, rig.ErrStr(op.Err)))
+			break
+		}
+		if q%2 == 1 {
+			if len(out) != 0 {
+				h, _ := payload.Parse(out)
+				fails = append(fails, fmt.Sprintf("call %d got an empty response but its response variable holds %d bytes (the response of call %d)", i+1, len(out), h.Tag))
+			}
+		} else if h, err := payload.Parse(out); err != nil || h.Tag != tag || h.Seq != q {
+			fails = append(fails, fmt.Sprintf("call %d: response is not its own (tag %d seq %d, err %v)", i+1, h.Tag, h.Seq, err))
+		}
+	}
+	desc := fmt.Sprintf("%s | %d unary calls into one reused response variable, responses empty for odd %v", cfg.Desc, n, seqs)
+	if len(fails) > 0 {
+		return runner.Violation(id, "isolation:unary-call-returns-another-calls-response", desc+"\n"+strings.Join(fails, "\n"))
+	}
+	res := runner.Hold(id, desc, true)
+	res.Events = int64(n)
+	return res
 }
 
 // queuedCancel: RPC 1 is soft-cancelled while its cancel packet is held back by the transport, RPC 2
@@ -506,6 +573,11 @@ func gen(tier string, seed uint64) []runner.Scenario {
 		i := i
 		id := fmt.Sprintf("abandoned-after-metadata/%d", i)
 		out = append(out, runner.Scenario{ID: id, Run: func() runner.Result { return scenario(id, payload.Hash(seed, 0xC02B, uint64(i)), "abandoned") }})
+	}
+	for i := 0; i < n/10; i++ {
+		i := i
+		id := fmt.Sprintf("reused-response/%d", i)
+		out = append(out, runner.Scenario{ID: id, Run: func() runner.Result { return reusedResponse(id, payload.Hash(seed, 0xC02E, uint64(i))) }})
 	}
 	for i := 0; i < n/10; i++ {
 		i := i
